@@ -82,6 +82,7 @@ type World struct {
 	Cfg     WorldCfg
 	Server  *serverCmd.Command
 	Client  *clientCmd.Command
+	Clients []*clientCmd.Command
 	Targets []*Target
 	// stdio carrier: the two pipe ends
 	stdioSrv, stdioCli *simrt.Conn
@@ -335,6 +336,16 @@ type ConfigError struct {
 func (e *ConfigError) Error() string { return e.Side + " configuration: " + e.Err.Error() }
 
 func (w *World) StartClient() error {
+	cmd, err := w.NewClient(w.Cfg.Listeners)
+	if err != nil {
+		return err
+	}
+	w.Client = cmd
+	return nil
+}
+
+// NewClient starts one more real client command with the given listeners.
+func (w *World) NewClient(listeners []LsnCfg) (*clientCmd.Command, error) {
 	cfg := w.Cfg
 	n := w.R.Net
 	args := []string{}
@@ -345,7 +356,7 @@ func (w *World) StartClient() error {
 	for _, u := range cfg.ExtraUpstreams {
 		args = append(args, "-u", u)
 	}
-	for _, l := range cfg.Listeners {
+	for _, l := range listeners {
 		spec := ""
 		switch l.Kind {
 		case "", "tcp":
@@ -379,9 +390,8 @@ func (w *World) StartClient() error {
 	cmd := clientCmd.NewCommand()
 	parser := flags.NewParser(cmd, flags.PassDoubleDash)
 	if _, err := parser.ParseArgs(args); err != nil {
-		return &ConfigError{Side: "client", Err: err}
+		return nil, &ConfigError{Side: "client", Err: err}
 	}
-	w.Client = cmd
 	if strings.HasPrefix(cfg.Carrier, "stdio") {
 		for _, u := range cmd.Upstream.Data {
 			if io, ok := u.(*upstream.InputOutput); ok {
@@ -400,10 +410,11 @@ func (w *World) StartClient() error {
 	}
 	n.SourceIP = ClientIP
 	if err := cmd.Startup(w.interrupted); err != nil {
-		return &ConfigError{Side: "client-startup", Err: err}
+		return nil, &ConfigError{Side: "client-startup", Err: err}
 	}
 	w.R.OnCleanup(func() { cmd.Shutdown() })
-	return nil
+	w.Clients = append(w.Clients, cmd)
+	return cmd, nil
 }
 
 func splitURL(u string) (network, address string) {
